@@ -27,9 +27,14 @@ def build_shim(ctx):
     return out
 
 
-def dir_conf(kind, run):
+def dir_conf(kind, run, first_max=None):
+    """first_max: two cache_dirs of the kind, the first one limited to objects of at most first_max bytes"""
     small = 'cache_mem 256 KB\nmaximum_object_size_in_memory 4 KB\nmaximum_object_size 4 MB\nminimum_object_size 0 KB\n'
     d = os.path.join(run, 'cd')
+    if first_max is not None:
+        if kind == 'rock':
+            return small + 'cache_dir rock %s 24 max-size=%d\ncache_dir rock %s2 24 max-size=2000000\n' % (d, first_max, d)
+        return small + 'cache_dir %s %s 24 4 16 max-size=%d\ncache_dir %s %s2 24 4 16\n' % (kind, d, first_max, kind, d)
     if kind == 'rock':
         return small + 'cache_dir rock %s 24 max-size=2000000\n' % d
     return small + 'cache_dir %s %s 24 4 16\n' % (kind, d)
@@ -45,7 +50,7 @@ def wait_rebuilt(sq, timeout=20.0):
     return False
 
 
-async def run_history(ctx, tree, kind, ops, n, rnd, stop='clean', crash_at=None, partial=None, shim=None, same_second=False):
+async def run_history(ctx, tree, kind, ops, n, rnd, stop='clean', crash_at=None, partial=None, shim=None, same_second=False, first_max=None):
     """-> dict(ev=[...], writes=int, died=bool).  same_second: every origin response carries the same Date (rock derives its
     slot-chain version from it); otherwise consecutive responses carry Dates one second apart (all in the recent past)."""
     t_date = time.time() - 3600
@@ -77,7 +82,7 @@ async def run_history(ctx, tree, kind, ops, n, rnd, stop='clean', crash_at=None,
     origin = await peers.Origin(rec, responder).start()
     env = {}
     sq = squidctl.Squid(ctx, tree, name='disk-%s-%d' % (kind, n), clock=False, cache_mem='256 KB', conf_extra='')
-    sq.conf_text = sq.conf_text.replace('cache_mem 256 KB\n', '').replace('http_access allow all', dir_conf(kind, sq.run) + 'http_access allow all')
+    sq.conf_text = sq.conf_text.replace('cache_mem 256 KB\n', '').replace('http_access allow all', dir_conf(kind, sq.run, first_max) + 'http_access allow all')
     open(sq.conf, 'w').write(sq.conf_text)
     sq.init_dirs()
     crashlog = os.path.join(sq.run, 'crash.ndjson')
@@ -156,7 +161,7 @@ async def run_history(ctx, tree, kind, ops, n, rnd, stop='clean', crash_at=None,
     finally:
         await origin.stop()
         sq.stop()
-    return {'ev': ev, 'writes': writes, 'died': died, 'rebuilt': rebuilt, 'alive_after': alive_after, 'kind': kind, 'ops': ops, 'sizes': sizes, 'crash_at': crash_at, 'partial': partial, 'same_second': same_second, 'fresh': fresh}
+    return {'ev': ev, 'writes': writes, 'died': died, 'rebuilt': rebuilt, 'alive_after': alive_after, 'kind': kind, 'ops': ops, 'sizes': sizes, 'crash_at': crash_at, 'partial': partial, 'same_second': same_second, 'fresh': fresh, 'first_max': first_max}
 
 
 def fill(ev):
